@@ -45,16 +45,25 @@ Follow == \E b \in poss' : bids' = b.bids /\ asks' = b.asks /\ seq' = b.seq
 \* in the state variable nxt one step before it is used (a state value is fully evaluated).
 CleanOf(S, f, am) == [j \in 1..Cardinality(S) |-> Lv(SetToSeq(S)[f[j]], am[j])]
 
+\* the order in which a level list is given: 1 = the side's natural order (bids high -> low, asks low ->
+\* high), 2 = exactly reversed, 3 = as drawn (unsorted); repeated prices end up adjacent in 1 and 2
+Ordered(list, o, side) ==
+  CASE o = 3 -> list
+    [] (o = 1) = (side = "asks") -> SortSeq(list, LAMBDA x, y : x.p < y.p)
+    [] OTHER                     -> SortSeq(list, LAMBDA x, y : x.p > y.p)
+
 DrawNext(forceSnap) ==
   \E kind \in {RandomElement(1..8)}, s \in {RandomElement(SEQS)},
      nb \in {RandomElement(0..MaxLong)}, na \in {RandomElement(0..MaxLong)},
-     Sb \in {RandomElement(SUBSET PRICE)}, Sa \in {RandomElement(SUBSET PRICE)} :
+     Sb \in {RandomElement(SUBSET PRICE)}, Sa \in {RandomElement(SUBSET PRICE)},
+     ob \in {RandomElement(1..3)}, oa \in {RandomElement(1..3)} :
     \E bl \in {[j \in 1..nb |-> RandomElement(LEVEL)]}, al \in {[j \in 1..na |-> RandomElement(LEVEL)]},
        fb \in {RandomElement(Permutations(1..Cardinality(Sb)))}, fa \in {RandomElement(Permutations(1..Cardinality(Sa)))},
        ab \in {[j \in 1..Cardinality(Sb) |-> RandomElement(AMOUNT \ {0})]},
        aa \in {[j \in 1..Cardinality(Sa) |-> RandomElement(AMOUNT \ {0})]} :
-      nxt' = IF forceSnap \/ kind = 1 THEN Ev("Snapshot", CleanOf(Sb, fb, ab), CleanOf(Sa, fa, aa), s)
-                                      ELSE Ev("Update", bl, al, s)
+      nxt' = IF forceSnap \/ kind = 1
+             THEN Ev("Snapshot", Ordered(CleanOf(Sb, fb, ab), ob, "bids"), Ordered(CleanOf(Sa, fa, aa), oa, "asks"), s)
+             ELSE Ev("Update", Ordered(bl, ob, "bids"), Ordered(al, oa, "asks"), s)
 
 GInitT == /\ \E m \in MapsOver(PRICE) : bids = m /\ asks = m
           /\ seq = 0 /\ last = NoEvent /\ nxt = NoEvent
